@@ -3,6 +3,8 @@
 package ast
 
 import (
+	"strings"
+
 	"github.com/xjslang/xjs/token"
 )
 
@@ -362,8 +364,32 @@ func (sl *StringLiteral) WriteTo(cw *CodeWriter) {
 	cw.AddMapping(sl.Token.Start)
 	// TODO: keep the original string token (' or ")
 	cw.WriteRune('"')
-	cw.WriteString(sl.Value)
+	cw.WriteString(escapeDoubleQuotes(sl.Value))
 	cw.WriteRune('"')
+}
+
+// escapeDoubleQuotes escapes the double quotes that are not already escaped, so that a string
+// written with single quotes in the source can be emitted between double quotes.
+func escapeDoubleQuotes(value string) string {
+	if !strings.Contains(value, "\"") {
+		return value
+	}
+	var b strings.Builder
+	for i := 0; i < len(value); i++ {
+		switch value[i] {
+		case '\\':
+			b.WriteByte(value[i])
+			if i+1 < len(value) {
+				i++
+				b.WriteByte(value[i])
+			}
+		case '"':
+			b.WriteString("\\\"")
+		default:
+			b.WriteByte(value[i])
+		}
+	}
+	return b.String()
 }
 
 func (sl *StringLiteral) Precedence() int {
